@@ -3,3 +3,5 @@ module verif/harness
 go 1.23.0
 
 require pgregory.net/rapid v1.3.0
+
+require gopkg.in/yaml.v3 v3.0.1
